@@ -1220,63 +1220,68 @@ Definition unit_vars_of (h : header) (body : list str) : list var :=
 
 Definition sub1 (arg : str) : header := mkhdr USubroutine None (s "sub") (Some (c_lpar :: arg ++ [c_rpar])) None.
 
+(* the single variable each of two bodies yields, put to a test *)
+Definition both (h : header) (b1 b2 : list str) (p : var -> var -> bool) : bool :=
+  match unit_vars_of h b1, unit_vars_of h b2 with [v], [v'] => p v v' | _, _ => false end.
+Definition attribs_are (v : var) (l : list str) : bool := list_eqb seqb (v_attribs v) l.
+Definition initial_is (v : var) (x : str) : bool := opt_eqb seqb (v_initial v) (Some x).
+
 Theorem attr_stmt_equiv_refuted_optional :
-  exists v v', unit_vars_of (sub1 (s "b")) [s "integer b"; s "optional b"] = [v] /\
-               unit_vars_of (sub1 (s "b")) [s "integer, optional :: b"] = [v'] /\
-               v_optional v = false /\ v_attribs v = [s "optional"] /\ v_optional v' = true /\ v_attribs v' = [].
-Proof. do 2 eexists. repeat split; vm_compute; reflexivity. Qed.
+  both (sub1 (s "b")) [s "integer b"; s "optional b"] [s "integer, optional :: b"]
+       (fun v v' => negb (v_optional v) && attribs_are v [s "optional"] && v_optional v' && attribs_are v' []) = true.
+Proof. vm_compute. reflexivity. Qed.
 
 Theorem attr_stmt_equiv_refuted_parameter :
-  exists v v', unit_vars_of (sub1 []) [s "character(len=5) str"; s "parameter (str = 'a  b')"] = [v] /\
-               unit_vars_of (sub1 []) [s "character(len=5), parameter :: str = 'a  b'"] = [v'] /\
-               v_parameter v = false /\ v_initial v = Some (s " ""0""") /\
-               v_parameter v' = true /\ v_initial v' = Some (s "'a" ++ [nbsp; nbsp] ++ s "b'").
-Proof. do 2 eexists. repeat split; vm_compute; reflexivity. Qed.
+  both (sub1 []) [s "character(len=5) str"; s "parameter (str = 'a  b')"]
+       [s "character(len=5), parameter :: str = 'a  b'"]
+       (fun v v' => negb (v_parameter v) && attribs_are v [s "parameter"] && initial_is v (s " ""0""")
+                    && v_parameter v' && attribs_are v' [] && initial_is v' (s "'a" ++ [nbsp; nbsp] ++ s "b'")) = true.
+Proof. vm_compute. reflexivity. Qed.
 
 Theorem attr_stmt_equiv_refuted_dimension :
-  exists v v' v'', unit_vars_of (sub1 []) [s "real a"; s "dimension a(3)"] = [v] /\
-                   unit_vars_of (sub1 []) [s "real, dimension(3) :: a"] = [v'] /\
-                   unit_vars_of (sub1 []) [s "real :: a(3)"] = [v''] /\
-                   v = v' /\ v_dimension v = [] /\ v_attribs v = [s "dimension(3)"] /\
-                   v_dimension v'' = s "(3)" /\ v_attribs v'' = [].
-Proof. do 3 eexists. repeat split; vm_compute; reflexivity. Qed.
+  both (sub1 []) [s "real a"; s "dimension a(3)"] [s "real :: a(3)"]
+       (fun v v' => seqb (v_dimension v) [] && attribs_are v [s "dimension(3)"]
+                    && seqb (v_dimension v') (s "(3)") && attribs_are v' []) = true /\
+  both (sub1 []) [s "real, dimension(3) :: a"] [s "real :: a(3)"]
+       (fun v v' => seqb (v_dimension v) [] && attribs_are v [s "dimension(3)"]
+                    && seqb (v_dimension v') (s "(3)") && attribs_are v' []) = true.
+Proof. split; vm_compute; reflexivity. Qed.
 
 Theorem attr_stmt_equiv_refuted_intent_in_out :
-  exists v v', unit_vars_of (sub1 (s "d")) [s "real d"; s "intent(in out) d"] = [v] /\
-               unit_vars_of (sub1 (s "d")) [s "real, intent(in out) :: d"] = [v'] /\
-               v_intent v = [] /\ v_intent v' = s "inout".
-Proof. do 2 eexists. repeat split; vm_compute; reflexivity. Qed.
+  both (sub1 (s "d")) [s "real d"; s "intent(in out) d"] [s "real, intent(in out) :: d"]
+       (fun v v' => seqb (v_intent v) [] && seqb (v_intent v') (s "inout")) = true.
+Proof. vm_compute. reflexivity. Qed.
 
 Theorem attr_stmt_equiv_refuted_result :
-  let h := mkhdr UFunction None (s "f") (Some (s "()")) (Some (s "r")) in
-  exists v v', unit_vars_of h [s "real r"; s "dimension r(3)"; s "save r"] = [v] /\
-               unit_vars_of h [s "real, dimension(3), save :: r"] = [v'] /\
-               v_attribs v = [] /\ v_attribs v' = [s "dimension(3)"; s "save"].
-Proof. do 2 eexists. repeat split; vm_compute; reflexivity. Qed.
+  both (mkhdr UFunction None (s "f") (Some (s "()")) (Some (s "r")))
+       [s "real r"; s "dimension r(3)"; s "save r"] [s "real, dimension(3), save :: r"]
+       (fun v v' => attribs_are v [] && attribs_are v' [s "dimension(3)"; s "save"]) = true.
+Proof. vm_compute. reflexivity. Qed.
 
 (* typed function prefixes *)
-Definition retvar_of (h : header) (body : list str) : option var :=
-  match unit_model h body with Ok u => u_retvar u | _ => None end.
+Definition retvar_test (h : header) (body : list str) (p : var -> bool) : bool :=
+  match unit_model h body with Ok u => match u_retvar u with Some r => p r | None => false end | _ => false end.
 Definition attribs_of (h : header) (body : list str) : list str :=
   match unit_model h body with Ok u => u_attribs u | _ => [] end.
+Definition fun0 (attrs : option str) (name : str) : header := mkhdr UFunction attrs name (Some (s "()")) None.
 
 Theorem prefix_refuted_case :
-  exists r r', retvar_of (mkhdr UFunction (Some (s "real(WP)")) (s "f") (Some (s "()")) None) [] = Some r /\
-               retvar_of (mkhdr UFunction None (s "f") (Some (s "()")) None) [s "real(WP) :: f"] = Some r' /\
-               v_kind r = Some (s "wp") /\ v_kind r' = Some (s "WP").
-Proof. do 2 eexists. repeat split; vm_compute; reflexivity. Qed.
+  retvar_test (fun0 (Some (s "real(WP)")) (s "f")) [] (fun r => opt_eqb seqb (v_kind r) (Some (s "wp"))) = true /\
+  retvar_test (fun0 None (s "f")) [s "real(WP) :: f"] (fun r => opt_eqb seqb (v_kind r) (Some (s "WP"))) = true.
+Proof. split; vm_compute; reflexivity. Qed.
 
 Theorem prefix_refuted_keyword :
-  exists r, retvar_of (mkhdr UFunction (Some (s "type(module_t)")) (s "f3") (Some (s "()")) None) [] = Some r /\
-            v_proto r = Some (s "_t", []) /\
-            attribs_of (mkhdr UFunction (Some (s "type(module_t)")) (s "f3") (Some (s "()")) None) [] = [s "module"].
-Proof. eexists. repeat split; vm_compute; reflexivity. Qed.
+  retvar_test (fun0 (Some (s "type(module_t)")) (s "f3")) []
+              (fun r => opt_eqb (pair_eqb seqb seqb) (v_proto r) (Some (s "_t", []))) = true /\
+  attribs_of (fun0 (Some (s "type(module_t)")) (s "f3")) [] = [s "module"] /\
+  retvar_test (fun0 None (s "f3")) [s "type(module_t) :: f3"]
+              (fun r => opt_eqb (pair_eqb seqb seqb) (v_proto r) (Some (s "module_t", []))) = true.
+Proof. repeat split; vm_compute; reflexivity. Qed.
 
 Theorem prefix_refuted_double :
-  exists r r', retvar_of (mkhdr UFunction (Some (s "double precision")) (s "f") (Some (s "()")) None) [] = Some r /\
-               retvar_of (mkhdr UFunction None (s "f") (Some (s "()")) None) [s "double precision f"] = Some r' /\
-               v_vartype r = s "doubleprecision" /\ v_vartype r' = s "double precision".
-Proof. do 2 eexists. repeat split; vm_compute; reflexivity. Qed.
+  retvar_test (fun0 (Some (s "double precision")) (s "f")) [] (fun r => seqb (v_vartype r) (s "doubleprecision")) = true /\
+  retvar_test (fun0 None (s "f")) [s "double precision f"] (fun r => seqb (v_vartype r) (s "double precision")) = true.
+Proof. split; vm_compute; reflexivity. Qed.
 
 (* ------------------------------------------------------------------ argument order *)
 (* every dummy argument, in the order of the argument list, becomes the variable declared under
